@@ -4,6 +4,61 @@ NOT_APPLICABLE = {('C%02d' % i): TODO for i in range(1, 21)}
 R_NOTE = ('R-model: floats are mathematical reals, float literals are the decimal rationals written in the source, '
           'transcendental functions are uninterpreted with sound axiom instances; IEEE rounding is outside the claim. ')
 CHECKS = {
+    'C01': {
+        'text': 'Bounded symbolic execution + SMT: geo2grid, alpha_coeff, rect_radius and Ellipsoid.__init__ (real source) run on a symbolic '
+                'ellipsoid (a, 1/f), symbolic Projection, symbolic latitude/longitude (float and angle-object arguments) with explicit '
+                'symbolic, ISG and automatic zones; on every path easting and northing are proved equal to the Karney-Krueger reference '
+                'within the 4-decimal rounding (z3, unsat of the negation), the automatic zone is proved to be in 1..60 with its central '
+                'meridian within half a zone width, hemisphere label/false northing follow the sign of the projected y, out-of-range input '
+                'is rejected on all paths; alpha_j(n) and the rectifying radius are compared with the published tables as 1-variable NRA '
+                'with a 0.05 mm amplification budget.',
+        'design_ref': 'DESIGN.md section 7 C01',
+        'note': R_NOTE + 'Series truncation vs the exact projection is a trusted remainder (<= 0.1 mm) that only the replay oracle '
+                '(quadrature exact TM) can see; zone-rule obligation uses concrete zone widths {2,6} (quick) / {1,2,3,6,10} (thorough).',
+        'technique': 'symbolic execution of the real Python source + SMT (z3 NRA/LIRA with uninterpreted transcendentals), witness replay',
+    },
+    'C02': {
+        'text': 'Bounded symbolic execution + SMT: grid2geo, beta_coeff and the stand-alone Standalone/mga2gda.py run on symbolic grid '
+                'coordinates, ellipsoid and projection with the Newton loop unrolled (K=2/3; stand-alone: its 3 fixed steps); every path is '
+                'proved equal to the Karney-Krueger inverse built on the same conformal map as the forward conversion, exits bound the last '
+                'Newton step, mirror-image coordinates give identical terms with opposite latitude, invalid input is rejected on all paths, '
+                'beta_j(n) vs the published table as 1-variable NRA; the explicit output roundings are read off the result terms and their '
+                'first-order effect on the closures is decided as NRA queries (this yields the known finding on longitude closure above 77 deg).',
+        'design_ref': 'DESIGN.md section 7 C02',
+        'note': R_NOTE + 'That beta reverts alpha to 0.2 mm / 2e-9 deg and that Newton converges is trusted (validated by the quadrature '
+                'oracle in replay).',
+        'technique': 'symbolic execution of the real Python source + SMT (z3 NRA with uninterpreted transcendentals), witness replay',
+    },
+    'C04': {
+        'text': 'Bounded symbolic execution + SMT: vincdir (real source) on a symbolic ellipsoid, start point, azimuth and distance with the '
+                'sigma loop unrolled to K=3/5 passes; every returning path is proved identical to Vincenty\'s direct formulae of the GDA2020 '
+                'Technical Manual within the output rounding, every exit bounds the last step by 1e-11, a forced non-converging run shows '
+                'the loop admits >= 20 passes, angle-object arguments give the same terms.',
+        'design_ref': 'DESIGN.md section 7 C04',
+        'note': R_NOTE + 'Accuracy of Vincenty\'s series against the exact geodesic is trusted (<= 0.5 mm); the replay oracle integrates '
+                'the exact geodesic by quadrature and is what confirms or refutes a witness.',
+        'technique': 'symbolic execution of the real Python source + SMT (z3 with uninterpreted transcendentals), witness replay',
+    },
+    'C05': {
+        'text': 'Bounded symbolic execution + SMT: vincinv (real source) on a symbolic ellipsoid and two symbolic points with the lambda loop '
+                'unrolled to K=3/5 passes; every returning path is proved identical to Vincenty\'s inverse formulae within the output '
+                'rounding, the forward azimuth is wrapped to [0, 360), exits bound the last step by 1e-11, the loop admits >= 100 passes, '
+                'the coincidence shortcut is taken exactly below 1e-10 deg and returns zeros, a common longitude offset gives identical terms.',
+        'design_ref': 'DESIGN.md section 7 C05',
+        'note': R_NOTE + 'Swap symmetry of the converged result and closure on the exact geodesic are decided only by the replay oracle '
+                '(quadrature geodesic), not by a solver query.',
+        'technique': 'symbolic execution of the real Python source + SMT (z3 with uninterpreted transcendentals), witness replay',
+    },
+    'C10': {
+        'text': 'Bounded symbolic execution + SMT: geo2grid, grid2geo and psfandgridconv (real source) on a symbolic ellipsoid and projection; '
+                'on every path the returned point scale factor and grid convergence are proved equal to the published Karney-Krueger '
+                'expressions for THAT ellipsoid and projection (8-decimal rounding), the convergence sign is proved from the path conditions '
+                'in all four quadrants (grid bearing = azimuth + convergence) and proved to vanish on the central meridian and the equator.',
+        'design_ref': 'DESIGN.md section 7 C10',
+        'note': R_NOTE + 'Agreement of the published expressions with the derivative of the exact projection (2e-8, 1e-9 deg) is trusted; '
+                'the replay oracle differentiates the exact quadrature projection.',
+        'technique': 'symbolic execution of the real Python source + SMT (z3 with uninterpreted transcendentals), witness replay',
+    },
     'C03': {
         'text': 'Bounded symbolic execution + SMT: Ellipsoid.__init__, llh2xyz (float and angle-object arguments, both branches of '
                 'the equator test) and xyz2llh (latitude loop unrolled to K=4/6 passes) run on a symbolic ellipsoid (a, 1/f), '
